@@ -147,7 +147,11 @@ func tagTable(src []byte) (string, error) {
 						tag = hxs(u)
 					}
 				}
-				s += fmt.Sprintf(" (fd (n %s) %s)", strings.Join(names, " "), tag)
+				ns := "(n"
+				for _, n := range names {
+					ns += " " + n
+				}
+				s += fmt.Sprintf(" (fd %s) %s)", ns, tag)
 			}
 			parts = append(parts, s+")")
 		}
